@@ -107,6 +107,8 @@ class Interp:
         self.cpos = 0
         self.trace = []
         self.depth = 0
+        self._const_cache = {}
+        self._agg_cache = {}
 
     # ------------------------------------------------------------------ exploration
     def explore(self, harness, max_paths=None, time_cap=None, prefix=(), stop_at_first=False, deadline=None):
@@ -405,6 +407,16 @@ class Interp:
 
     # ------------------------------------------------------------------ operands
     def eval_const(self, text):
+        c = self._const_cache.get(text)
+        if c is not None:
+            return c[0]
+        v = self._eval_const(text)
+        # immutable, allocation-free constants are computed once
+        if isinstance(v, (bool, Int, Unit, FnItem, Extern)) or (isinstance(v, Adt) and not v.fields):
+            self._const_cache[text] = (v,)
+        return v
+
+    def _eval_const(self, text):
         if text == 'true':
             return True
         if text == 'false':
@@ -564,9 +576,26 @@ class Interp:
         raise Inconclusive('discriminant of %r' % (v,))
 
     def aggregate(self, path, fields, fr, dest_ty):
+        key = (path, dest_ty)
+        info = self._agg_cache.get(key)
+        if info is None:
+            info = self._agg_cache[key] = self._aggregate_info(path, dest_ty)
+        ty, vi, names = info
+        if ty is None:
+            # unknown external struct: keep positional / named fields as given
+            vals = [] if fields is None else [self.eval_operand(o, fr) for _, o in fields['named']] if 'named' in fields else [self.eval_operand(o, fr) for o in fields['pos']]
+            return Adt(vi, 0, vals)
+        if fields is None:
+            return Adt(ty, vi, ())
+        if 'named' in fields:
+            vals = {n: self.eval_operand(o, fr) for n, o in fields['named']}
+            return Adt(ty, vi, [vals[n] for n in names])
+        return Adt(ty, vi, [self.eval_operand(o, fr) for o in fields['pos']])
+
+    def _aggregate_info(self, path, dest_ty):
         p = mir.strip_generics(path)
         # which ADT?  prefer the declared destination type
-        ty = base_ty(dest_ty) if self.adts.has(dest_ty) else None
+        ty = base_ty(dest_ty) if dest_ty is not None and self.adts.has(dest_ty) else None
         vname = p.rsplit('::', 1)[-1]
         if ty is None:
             if self.adts.has(p):
@@ -574,9 +603,7 @@ class Interp:
             elif '::' in p and self.adts.has(p.rsplit('::', 1)[0]):
                 ty = base_ty(p.rsplit('::', 1)[0])
             else:
-                # unknown external struct: keep positional / named fields as given
-                vals = [] if fields is None else [self.eval_operand(o, fr) for _, o in fields['named']] if 'named' in fields else [self.eval_operand(o, fr) for o in fields['pos']]
-                return Adt(p, 0, vals)
+                return (None, p, None)
         vs = self.adts.variants(ty)
         vi = None
         for i, (n, fl, d) in enumerate(vs):
@@ -587,13 +614,7 @@ class Interp:
                 vi = 0
             else:
                 raise Inconclusive('variant %s of %s' % (vname, ty))
-        names = vs[vi][1]
-        if fields is None:
-            return Adt(ty, vi, ())
-        if 'named' in fields:
-            vals = {n: self.eval_operand(o, fr) for n, o in fields['named']}
-            return Adt(ty, vi, [vals[n] for n in names])
-        return Adt(ty, vi, [self.eval_operand(o, fr) for o in fields['pos']])
+        return (ty, vi, vs[vi][1])
 
     def binop(self, op, a, b):
         if op in ('Eq', 'Ne'):
@@ -920,7 +941,12 @@ class Interp:
         if m and argv:
             rt_ty = self.runtime_type(argv[0])
             if rt_ty is not None:
-                return self.call('<%s as %s>::%s' % (rt_ty, m.group(2), m.group(3)), argv, dest_ty)
+                # the type parameter may itself be a reference (`U = &Key<T>`): the blanket impls for `&T`
+                # forward to `T`, so peel references down to one level
+                recv = argv[0]
+                while isinstance(recv, Ptr) and isinstance(self.load(recv), Ptr):
+                    recv = self.load(recv)
+                return self.call('<%s as %s>::%s' % (rt_ty, m.group(2), m.group(3)), [recv] + list(argv[1:]), dest_ty)
         # closures / fn items through Fn* traits
         m = re.fullmatch(r'<(.*) as std::ops::(Fn|FnMut|FnOnce)<.*>>::(call|call_mut|call_once)', callee, re.S)
         if m:
